@@ -15,27 +15,27 @@ import (
 
 // Member is one way an element can hold a value.
 type Member struct {
-	Field    *types.Var
-	Kind     string     // "type" | "literal"
-	TypeGen  *GenType   // for Kind=="type"
-	Iface    *types.Named // vocab interface of the type member
-	Lit      string     // for literals: values package base name (string, langString, anyURI, …), filled from the codec used
-	HasFlag  *types.Var // has<K>Member flag, if any
+	Field   *types.Var
+	Kind    string       // "type" | "literal"
+	TypeGen *GenType     // for Kind=="type"
+	Iface   *types.Named // vocab interface of the type member
+	Lit     string       // for literals: values package base name (string, langString, anyURI, …), filled from the codec used
+	HasFlag *types.Var   // has<K>Member flag, if any
 }
 
 type PropModel struct {
-	G          *GenProp
-	Iface      *types.Named // vocab.<…>Property
-	Name       string       // propName literal
-	VocabURI   string
-	Functional bool
-	Elem       *types.Named // struct holding one value
-	Container  *types.Named // non-functional: struct holding the slice
-	Members    []*Member
-	ElemDeser  *ast.FuncDecl // deserialize<…>Iterator, or Deserialize<…>Property for functional
-	PropDeser  *ast.FuncDecl // Deserialize<…>Property
-	MapKeyRead string        // "", "conditional", "unconditional": how <name>Map is read
-	Problems   []string
+	G             *GenProp
+	Iface         *types.Named // vocab.<…>Property
+	Name          string       // propName literal
+	VocabURI      string
+	Functional    bool
+	Elem          *types.Named // struct holding one value
+	Container     *types.Named // non-functional: struct holding the slice
+	Members       []*Member
+	ElemDeser     *ast.FuncDecl // deserialize<…>Iterator, or Deserialize<…>Property for functional
+	PropDeser     *ast.FuncDecl // Deserialize<…>Property
+	MapKeyRead    string        // "", "conditional", "unconditional": how <name>Map is read
+	Problems      []string
 	memberByField map[*types.Var]*Member
 }
 
@@ -47,13 +47,13 @@ type TypeModel struct {
 }
 
 type GenModel struct {
-	S        *Streams
-	Props    []*PropModel
-	PropOf   map[*types.Named]*PropModel // by vocab interface
-	TypeOf   map[*types.Named]*GenType   // by vocab interface
-	MgrProp  map[*types.Func]*PropModel
-	MgrType  map[*types.Func]*GenType
-	Types    []*TypeModel
+	S       *Streams
+	Props   []*PropModel
+	PropOf  map[*types.Named]*PropModel // by vocab interface
+	TypeOf  map[*types.Named]*GenType   // by vocab interface
+	MgrProp map[*types.Func]*PropModel
+	MgrType map[*types.Func]*GenType
+	Types   []*TypeModel
 }
 
 var genModelCache *GenModel
@@ -282,7 +282,13 @@ func extractPropModel(M *GenModel, pm *PropModel) {
 		if strings.HasPrefix(f.Name(), "has") && f.Type().String() == "bool" {
 			suffix := strings.TrimPrefix(f.Name(), "has") // e.g. StringMember
 			for _, m := range pm.Members {
-				if m.Kind == "literal" && strings.HasSuffix(strings.ToLower(m.Field.Name()), strings.ToLower(suffix)) {
+				if m.Kind != "literal" || !strings.HasSuffix(m.Field.Name(), suffix) {
+					continue
+				}
+				// the part before the suffix is the (all lower-case) vocabulary prefix:
+				// xmlschema+StringMember, but not rdfLang+StringMember
+				prefix := strings.TrimSuffix(m.Field.Name(), suffix)
+				if prefix == strings.ToLower(prefix) {
 					m.HasFlag = f
 				}
 			}
